@@ -35,7 +35,7 @@ func c02model(c *Ctx, a *c02) {
 		c.Unk("C02.R1", "geom#within-model", token.NoPos, "geometry types do not resolve")
 		return
 	}
-	m.it.maxDepth = 12
+	m.it.maxDepth = 48
 	within := c.P.Method("geom", "Point", "Within")
 	if within == nil || c.P.Decl(within) == nil {
 		c.Unk("C02.R1", "geom.(Point).Within", token.NoPos, "API anchor does not resolve")
